@@ -180,8 +180,10 @@ Record amrow := { am_id : lstr; am_date : lstr; am_k : list lstr (* 6 *); am_mod
 Definition am_tokens (r : amrow) : list lstr :=
   [am_id r; am_date r] ++ firstn 3 (am_k r) ++ [am_mode r] ++ firstn 3 (am_w r) ++ skipn 3 (am_k r) ++ skipn 3 (am_w r).
 Definition render_meas_txt_row (r : amrow) : lstr := List.concat (map (fun t => t ++ [" "%char]) (am_tokens r)).
-Definition render_meas_csv_row (r : amrow) : lstr := intercalate [","%char] (am_tokens r).
+(* the CSV row always has its 15 cells: a row without the deep values has them empty *)
+Definition am_cells (r : amrow) : list lstr := am_tokens r ++ repeat [] (15 - List.length (am_tokens r)).
+Definition render_meas_csv_row (r : amrow) : lstr := intercalate [","%char] (am_cells r).
 Definition meas_txt_header : lstr := lstr_of "Plot_ID Date Nm03 Nm36 Nm69 M W0_3 W3_6 W6_9 NM9-12 NM12-15 NM15-20 W9-12 W12-15 W15-20".
 Definition meas_csv_header : lstr := lstr_of "Plot_ID,Date,Nm03,Nm36,Nm69,M,W0_3,W3_6,W6_9,NM9-12,NM12-15,NM15-20,W9-12,W12-15,W15-20".
-Definition render_meas_txt (rows : list amrow) : list lstr := meas_txt_header :: map render_meas_txt_row rows ++ [lstr_of "end"].
-Definition render_meas_csv (rows : list amrow) : list lstr := meas_csv_header :: map render_meas_csv_row rows ++ [lstr_of "end"].
+Definition render_meas_txt (rows : list amrow) : list lstr := meas_txt_header :: map render_meas_txt_row rows.
+Definition render_meas_csv (rows : list amrow) : list lstr := meas_csv_header :: map render_meas_csv_row rows.
